@@ -45,16 +45,17 @@ OUTSIDE = ["more than 4 rewrites per pass, more than 2 rule groups", "AST-node t
 HEAD = 'S = """\n'
 BODY_LINES = ["aaaa bbbb\n", "cc  # pyrefact: ignore\n", "dddd eeee\n"]
 BODY_LINES_PLAIN = ["aaaa bbbb\n", "cccc\n", "dddd eeee\n"]
+BODY_LINES_ODD = ["aaaa bbbb\n", "cc  #pyrefact :  ignore\n", "dddd eeee\n"]  # accepted spacing variants, same length
 TAIL = '"""\n'
 
 
 def _layout(annotated):
-    body = BODY_LINES if annotated else BODY_LINES_PLAIN
+    body = BODY_LINES_ODD if annotated == "odd" else (BODY_LINES if annotated else BODY_LINES_PLAIN)
     src = HEAD + "".join(body) + TAIL
     lines = []
     pos = len(HEAD)
     for ln in body:
-        lines.append((pos, pos + len(ln), "pyrefact: ignore" in ln))
+        lines.append((pos, pos + len(ln), "pyrefact" in ln))
         pos += len(ln)
     lo, hi = len(HEAD), pos - 1  # ranges live inside the literal body (before the last newline)
     return src, lines, lo, hi
@@ -408,8 +409,10 @@ def obligations(tier, seed):
     obs = []
     for n in (1, 2):
         for cfg in _configs(n):
-            for ann in (True, False):
-                obs.append(Obligation("sched/%s/%s" % (cfg_id(cfg), "ann" if ann else "plain"), ob_schedule,
+            for ann in (True, False, "odd"):
+                if ann == "odd" and n == 1:
+                    continue
+                obs.append(Obligation("sched/%s/%s" % (cfg_id(cfg), {True: "ann", False: "plain", "odd": "odd"}[ann]), ob_schedule,
                                       {"cfg": cfg, "annotated": ann}, hard_timeout=150,
                                       sample={"rewrites": cfg, "annotated_line": ann}))
     c3 = _configs(3)
